@@ -10,7 +10,7 @@ from ..core import Sub
 PROP = {
     "id": "C05",
     "level": "exploration",
-    "technique": "exhaustive enumeration of all 2^n presence masks (n<=10 quick, n<=14 thorough) x 4 run-length track kinds + Hypothesis run-length masks up to 400 frames in multi-track blocks; oracle: independent segment parser on the written bytes, decode under two poisoned allocators",
+    "technique": "exhaustive enumeration of all 2^n presence masks (n<=10 quick, n<=14 thorough) x 4 run-length track kinds + Hypothesis run-length masks up to 400 frames in multi-track blocks; oracle: independent segment parser on the written bytes, decode under two poisoned allocators; missing frames as any NaN bit pattern; coupled arrays in different dtypes",
     "level_text": ("Exploration with an exhaustive sub-domain: for each of the four run-length coded track kinds every presence mask "
                    "over n frames is enumerated completely for small n (reported as exhaustive for that sub-domain); larger n and "
                    "multi-track blocks are sampled with masks built from run lengths. The written segment table is parsed by an "
@@ -234,7 +234,7 @@ def blocks_strategy(tier):
 
 def run_block(ctx, case):
     """several tracks per block: run tables in the block's bytes, gap frames after block decode"""
-    spec, hints = case["spec"], case.get("hints")
+    spec, hints = specs.expand_case(case)
     t = spec["t"]
     its = codec.items(spec)
     ok, blk = ctx.must(lambda: specs.build(spec, hints), f"{t}/block-build", f"constructing a {t} block")
@@ -340,6 +340,12 @@ SUBS.append(Sub("boundary-masks", run_boundary, kind="enum", enumerate=enum_boun
 SUBS.append(Sub("coupled-dtypes", run_block, strategy=coupled_strategy, budget=(300, 8000), shards=(2, 8),
                 rule="force/torque and platform-data blocks whose coupled arrays come in different dtypes (application point as int16/32/64, uint8, float16 on an exactly "
                      "representable grid; force / torque as float32/64 in either byte order): run tables and every present value after decode"))
+SUBS.append(Sub("boundary-counts", run_block, kind="enum", enumerate=specs.enum_boundary_rle, shards=(8, 16),
+        rule="52 fixed blocks of the four run-length types whose counts sit on 2^7 / 2^8 / 2^15 / 2^16 (tracks per block, runs per track, frames per track); finite, enumerated",
+        nontrivial_required=False))
+SUBS.append(Sub("long-runs-all-dtypes", run_block, kind="enum", enumerate=specs.enum_long_runs, shards=(8, 16),
+        rule="each run-length type x one gap-free run of 8189 / 8190 / 16382 / 65537 frames x input dtype <f4 <f8 >f4 >f8 x C / F order; finite, enumerated",
+        nontrivial_required=False))
 SUBS.append(Sub("long-tracks", run_block, strategy=specs.long_block_case, budget=(16, 400), shards=(8, 16),
                 rule="blocks with 1-2 tracks of 257 .. 131079 frames; gaps that start or end exactly at 256 / 1024 / 4096 / 8192 / 16384 / 65536 / 131072, "
                      "every second..fifth frame missing (thousands of runs), sparse gaps; all input dtypes / byte orders / layouts"))
